@@ -94,6 +94,35 @@ reg("C13", "model_checking",
     SERVER_NOTE, SERVER_TECH, "5/C13")
 
 
+reg("C14", "model_checking",
+    "Pending retries / waiter timeouts across idle release and restart. TLC checks IdleRelease.tla (idle announcement, "
+    "deferred release under the reload lock, abort, reload-on-send over an abstract retrying engine whose timers live in "
+    "memory) for idle_timeout shorter and longer than the retry delay: the intended design keeps every timer, the as-coded "
+    "variant loses it exactly when idle_timeout < delay. The same configurations and restart-at-each-tick crash points run "
+    "on the real server stack; Obs_C14 judges whether the retry / TimeoutError took effect and the handler left 'running'.",
+    SERVER_NOTE, SERVER_TECH, "5/C14")
+reg("C15", "model_checking",
+    "Handler record vs outcome. TLC checks HandlerStatus.tla (terminal-event status write with retry/back-off and bounded "
+    "transient faults, idle writes, engine-side error) -- design holds, as-coded violates on the engine-error path. On the "
+    "real server stack 7 outcome kinds x 0..len(backoff) injected store-write failures are run; Obs_C15 judges the final "
+    "row and the order of successful status writes.",
+    SERVER_NOTE + " Write-fault sequences are bounded by len(persistence_backoff) as the statement's retry budget.", SERVER_TECH, "5/C15")
+reg("C26", "model_checking",
+    "Idle release/resume loses nothing and never double-runs (in-process stack). TLC checks IdleRelease.tla: release only "
+    "when the engine has no queued/running/scheduled work, no event lost, active <=> one live loop. The real stack is "
+    "driven through idle gaps around the timeout, two release/reload cycles, two concurrent senders to a released run and "
+    "a send racing the deferred release in both callback orders; Obs_C26 judges processed events, live loops and what the "
+    "engine held at release.",
+    SERVER_NOTE + " The DBOS lifecycle-lock half of the statement is NOT covered (dbos/Postgres are not installed); claimed for the in-process stack only.",
+    SERVER_TECH, "5/C26")
+reg("C36", "model_checking",
+    "Idle runs are released after idle_timeout and reloaded on demand (in-process stack): IdleRelease.tla checked by TLC "
+    "(not released early, released run marked idle, reload on send); real stack driven with idle gaps below/at/above the "
+    "timeout, repeated cycles, concurrent senders; Obs_C36 judges release time, idle mark and continuation to the same result.",
+    SERVER_NOTE + " The DBOS half of the statement is NOT covered (dbos is not installed; DESIGN.md 7 notes RunLifecycleLock.create is never called).",
+    SERVER_TECH, "5/C36")
+
+
 def build():
     props = [json.loads(l) for l in (ROOT / "properties.jsonl").read_text().splitlines() if l.strip()]
     checks, na = [], []
